@@ -920,6 +920,12 @@ class Interp:
         # peel equal-length chunks from the left and from the right
         conj = []
         ca, cb = list(ca), list(cb)
+        # opaque chunks that are empty on this path carry no bytes: drop them first
+        for side in (ca, cb):
+            for c in list(side):
+                n = chunk_len(c)
+                if not isinstance(n, int) and len(side) > 1 and self.p.implied(n == 0):
+                    side.remove(c)
 
         def peel(front):
             while ca and cb:
